@@ -952,3 +952,20 @@ func sumChunkDurs(chunks []chunk, n int) int {
 //@   callsite chunkSegment requires advertised: arg_chunkDur == (a.SegmentDurMS - int(cfg.AvailabilityTimeOffsetS*1000.0)) * int(so.meta.rep.MediaTimescale) / 1000 && arg_segMeta == so.meta && arg_seg == so.seg
 //@   loop 1 invariant true
 //@   loop 2 invariant 0 <= rangeidx && rangeidx <= len(chunks) && chunkAvailTime == int(so.meta.newTime) + cfg.StartTimeS*int(rep.MediaTimescale) + sumChunkDurs(chunks, rangeidx)
+
+// ---------------------------------------------------------------------------
+// C04 wiring: errors that decide the HTTP status (errNotFound -> 404, errTooEarly -> 425,
+// errGone -> 410) keep their identity on the way to the handler: every fmt.Errorf on the segment
+// path that receives an error wraps it with %w (obligation kind errwrap, generated per call).
+//@ func writeSegment
+//@   wiring
+//@ func writeLiveSegment
+//@   wiring
+//@   loop 1 invariant true
+//@ func calcStatusCode
+//@   wiring
+//@   loop 1 invariant true
+//@ func writeInitSegment
+//@   wiring
+//@ func createAudioSegment
+//@   wiring
